@@ -284,6 +284,7 @@ impl Group for C12Node {
         Some(match t.as_slice() {
             ["n_new", l, ty] => format!("spec {} {}", l, ty),
             ["n_keysend", now, amt] => format!("insert {} {}", now, amt),
+            ["n_invoice", now, amt] => format!("insert {} {}", now, amt),
             ["n_restart", l, ty] => format!("restart {} {}", l, ty),
             _ => op.to_string(),
         })
@@ -303,7 +304,11 @@ impl Group for C12Node {
                 let l = if rng.chance(1, 8) { limit + 1 } else { limit };
                 ops.push(format!("n_restart {} {}", l, ty));
             }
-            ops.push(format!("n_keysend {} {}", t, a));
+            if a > 0 && a < (1u64 << 60) && rng.chance(1, 2) {
+                ops.push(format!("n_invoice {} {}", t, a));
+            } else {
+                ops.push(format!("n_keysend {} {}", t, a));
+            }
         }
         ops
     }
@@ -335,7 +340,7 @@ impl Group for C12Node {
                     log.clear();
                     format!("ok {}", d)
                 }
-                ["n_keysend", now, amt] => {
+                [kind @ ("n_keysend" | "n_invoice"), now, amt] => {
                     let n = node.as_ref().expect("n_new first");
                     let now: u64 = now.parse().unwrap();
                     let amt: u64 = amt.parse().unwrap();
@@ -343,7 +348,30 @@ impl Group for C12Node {
                     hash_ctr += 1;
                     let mut h = [0u8; 32];
                     h[..4].copy_from_slice(&hash_ctr.to_be_bytes());
-                    let r = std::panic::catch_unwind(std::panic::AssertUnwindSafe(|| n.add_keysend(make_test_pubkey(1), PaymentHash(h), amt)));
+                    let is_invoice = *kind == "n_invoice";
+                    let r = std::panic::catch_unwind(std::panic::AssertUnwindSafe(|| {
+                        if is_invoice {
+                            // a real signed BOLT-11 invoice issued "now" for a fresh payment hash
+                            use lightning_signer::bitcoin::hashes::{sha256::Hash as Sha256Hash, Hash};
+                            use lightning_signer::bitcoin::secp256k1::{Secp256k1, SecretKey};
+                            use lightning_signer::invoice::Invoice;
+                            use lightning_signer::lightning::types::payment::PaymentSecret;
+                            use lightning_signer::lightning_invoice::{Currency, InvoiceBuilder};
+                            let key = SecretKey::from_slice(&[42; 32]).unwrap();
+                            let inv = InvoiceBuilder::new(Currency::BitcoinTestnet)
+                                .description("verif".into())
+                                .payment_hash(Sha256Hash::hash(&h))
+                                .payment_secret(PaymentSecret(h))
+                                .duration_since_epoch(Duration::from_secs(now))
+                                .min_final_cltv_expiry_delta(144)
+                                .amount_milli_satoshis(amt)
+                                .build_signed(|hash| Secp256k1::new().sign_ecdsa_recoverable(hash, &key))
+                                .unwrap();
+                            n.add_invoice(Invoice::Bolt11(inv))
+                        } else {
+                            n.add_keysend(make_test_pubkey(1), PaymentHash(h), amt)
+                        }
+                    }));
                     match r {
                         Err(_) => { co.tags.insert("keysend:panic".into()); "panic".to_string() }
                         Ok(Err(e)) => { co.tags.insert("keysend:err".into()); format!("err {:?}", e.code()) }
